@@ -33,6 +33,12 @@ def run(ck):
            "CHECK_DEADLOCK FALSE\n") % (scripts, mc)
     res, rows = tlc_emit(ck, "Loader", cfg, "Loader(%s,calls<=%d)" % (scripts, mc), timeout=1700, xmx="24g")
     replay(ck, "replay-loader", rows, "link-error-positions")
+    # (f) parse diagnostics: the position of every syntax error lies in the source and its line/column is that offset's, for
+    #     malformed texts, random token sequences - and for degenerate texts that are the first thing a fresh parser object sees
+    from lib import vlib
+    r = vlib.vh_json(["parse-total", "-seed", str(ck.seed), "-n", "1500" if q else "20000"], timeout=1500)
+    from checks.common import absorb
+    absorb(ck, r, "diagnostic-positions")
     ck.cov["exhaustive"] = False
     ck.cov["rule"] = ("(a,d) every state of the TLC-explored scanning machine (all texts <= MaxSyms symbols over "
                       "{a,\\n,2-byte,3-byte rune} x every offset -1..len+1) and every behaviour of the ErrChain "
@@ -41,5 +47,5 @@ def run(ck):
                       "run-time fault at every position of a use() call tree and hostile atoms: every chain entry names the right "
                       "script and lies inside the statement at fault; (e) every script set x visit order of the Loader spec (call i of a script sits "
                       "at line i, column 2i-1): a rejected root's chain is the root cause followed by exactly the call sites on the "
-                      "path, each with its own script, line and column. distinct = distinct texts / op sequences / trees / programs")
+                      "path, each with its own script, line and column; (f) syntax-error positions of malformed / random texts, warm and on a parser object that has never parsed before. distinct = distinct texts / op sequences / trees / programs")
     ck.assumptions += ["TLC/SANY 1.8.0 and CommunityModules Json are trusted", "bounds: see rule"]
